@@ -670,3 +670,11 @@ func (s *Sim) Stuck() string {
 	}
 	return sb.String()
 }
+
+// Ready reports whether the task is parked at a yield whose guard (if any) is
+// satisfied right now, i.e. the scheduler could release it. Only meaningful
+// at a quiescent point.
+func (t *Task) Ready() bool {
+	st, site, obj := t.snapshot()
+	return st == stParked && guardReady(site, obj)
+}
